@@ -468,7 +468,7 @@ func (w *world) settle() bool {
 			if !tracked && !g.td {
 				continue
 			}
-			if !waitingStatus(g.status) {
+			if !waitingStatus(g.status) || g.onHarnessLock() {
 				stable = false
 				break
 			}
@@ -592,7 +592,7 @@ func (w *world) startCaller(probe bool) *actor {
 			a.openRel = -1
 		}
 		w.logf(t, "call.end:"+errName(err), a, -1)
-		delete(w.byGid, gid)
+		// stays in byGid: until the goroutine is really gone it counts as running
 		w.mu.Unlock()
 		close(a.doneCh)
 	}()
@@ -617,6 +617,10 @@ func (w *world) finish(f *fakeConn, res error) {
 	var inv *invocation
 	if len(f.invs) > 0 {
 		inv = f.invs[0]
+	}
+	if !f.killed && (errors.Is(res, pool.ErrConnDead) || errors.Is(res, rpc.ErrEngineClosed)) {
+		// a fake connection reports its own death only after the schedule killed it
+		res = nil
 	}
 	w.mu.Unlock()
 	if inv == nil {
